@@ -28,8 +28,9 @@ open Mir Mir.Chord Mir.PyChord
 theorem reduce_extended_quality_eq_model (q : List Char) :
     Mir.Gen.chord.reduce_extended_quality q = .ok (reduceExtendedQuality q) := by
   unfold Mir.Gen.chord.reduce_extended_quality reduceExtendedQuality
-  simp only [Mir.PyChord.dictGetD, Mir.PyS.dictHas, Mir.PyS.dictIndex]
-  cases List.lookup q MirGen.Tables.extendedQualityRedux <;> rfl
+  simp only [Mir.PyChord.dictGetD, Mir.PyS.dictHas, Mir.PyS.dictIndex, Mir.PyS.dictGet]
+  rcases Option.eq_none_or_eq_some (List.lookup q MirGen.Tables.extendedQualityRedux) with h | ⟨⟨a, b⟩, h⟩ <;>
+    simp [h, pure, Except.pure, bind, Except.bind]
 
 theorem accepts_eq_reMatch (m : Mir.Rx.Method) (s : List Char) :
     Mir.Rx.accepts m Mir.Gen.chordRe s = reMatch s := by
@@ -46,8 +47,9 @@ theorem validate_chord_label_eq_model (s : List Char) :
 theorem quality_to_bitmap_eq_model (q : List Char) :
     Mir.Gen.chord.quality_to_bitmap q = qualityToBitmap q := by
   unfold Mir.Gen.chord.quality_to_bitmap qualityToBitmap
-  simp only [Mir.PyChord.npArray, Mir.PyS.dictHas, Mir.PyS.dictIndex]
-  rcases Option.eq_none_or_eq_some (List.lookup q MirGen.Tables.qualities) with h | ⟨v, h⟩ <;> simp only [h] <;> rfl
+  simp only [Mir.PyChord.npArray, Mir.PyS.dictHas, Mir.PyS.dictIndex, Mir.PyS.dictGet]
+  rcases Option.eq_none_or_eq_some (List.lookup q MirGen.Tables.qualities) with h | ⟨v, h⟩ <;>
+    simp [h, pure, Except.pure, bind, Except.bind]
 
 /-- the part of `scale_degree_to_bitmap` after the `*` prefix has been read -/
 theorem bitmap_tail (t : List Char) (m : Bool) (n : Nat) (sign : Int) (k : Int → Py Vec)
@@ -198,7 +200,8 @@ theorem encode_eq_model (s : List Char) (r sb : Bool) : Mir.Gen.chord.encode s r
   have hset2 : listSet (threshold bm') (b % 12) 1 = .ok ((threshold bm').set (b % 12).toNat 1) :=
     listSet_of_range 1 hr.1 (by omega)
   simp only [hget, hset2, ok_bind]
-  by_cases hz : (threshold bm').getD (b % 12).toNat 0 = 0 <;> cases sb <;> simp [hz, pure, Except.pure]
+  by_cases hz : (threshold bm').getD (b % 12).toNat 0 = 0 <;> cases sb <;>
+    simp [hz, hget, hset2, pure, Except.pure, bind, Except.bind]
 
 /-- `chord.rotate_bitmap_to_root` as translated (`np.nonzero` / fancy-index assignment) is the model used by C11's mirex
     comparison, for every bitmap with at least 12 entries (the documented shape is `(12,)`) and EVERY integer root -/
